@@ -107,6 +107,9 @@ class ASPConverter(Converter[ASPProgram,
 
     def create_new_field_value(self, name: str) -> ASPValue:
         result = re.sub(r'[AEIOU]', '', name, flags=re.IGNORECASE).upper()
+        if result[:1].isdigit():
+            # invented from a name such as 'a1': it must still start like a variable
+            result = 'X' + result
         if result in self._created_fields:
             trailing_number = self.get_trailing_number(result)
             if trailing_number:
